@@ -1044,7 +1044,21 @@ def r03_5_partial_join_engine(ctx: Ctx, rule: str = "R03.5") -> None:
         given = has_fact(facts, "IS", tuple(sorted(("None", pe))), False)
         b = env_at(p).get(a.id) if isinstance(a, ast.Name) else a
         defaulted = isinstance(b, ast.AST) and src(b) == "self.fixed.engine"
-        if a is not None and ((src(a) == pe and given and not isinstance(b, ast.AST)) or defaulted or (src(a) == pe and given)):
+        if isinstance(b, ast.IfExp):
+            # `self.fixed.engine if preferred_engine is None else preferred_engine` (either way round)
+            from ..facts import facts_of as _facts_of
+
+            tf = _facts_of(b.test, True)
+            none_when_true = any(fc.kind == "IS" and set(fc.args) == {"None", pe} and fc.polarity for fc in tf)
+            none_when_false = any(fc.kind == "IS" and set(fc.args) == {"None", pe} and not fc.polarity for fc in tf)
+            if none_when_true and src(b.body) == "self.fixed.engine" and src(b.orelse) == pe:
+                defaulted = True
+            if none_when_false and src(b.orelse) == "self.fixed.engine" and src(b.body) == pe:
+                defaulted = True
+        if isinstance(b, ast.BoolOp) and isinstance(b.op, ast.Or) and [src(x) for x in b.values] == [pe, "self.fixed.engine"]:
+            defaulted = False  # an engine object is always truthy, but `or` is not the documented test; keep it undecided -> reported
+        through = src(a) == pe or (isinstance(b, ast.Name) and b.id == pe)
+        if a is not None and (defaulted or (through and given)):
             run.ok(rule, inst)
         else:
             run.fail(
